@@ -171,3 +171,17 @@ Proof.
   - exfalso. apply Hi; lia.
   - exfalso. apply Ht; lia.
 Qed.
+
+(* the slices of get_symbol_string, conversions/bytes.rs, end_list and get_list_item_with_symbol together *)
+Corollary block_slices_no_panic : forall heap_len d i len n,
+  block_ok heap_len d ->
+  no_panic (block_prefix_slice heap_len d) /\
+  (run_ok d i n -> no_panic (data_run_slice heap_len d i n) /\ no_panic (bytes_conv_slice heap_len i n)) /\
+  (run_ok d i (2 * len) -> no_panic (basic_end_list_slice heap_len d i len) /\
+                           (n <= len -> no_panic (basic_assoc_slice heap_len d i len n))).
+Proof.
+  intros heap_len d i len n Hok. split; [exact (block_prefix_slice_no_panic heap_len d Hok)|]. split.
+  - intros Hr. split; [exact (data_run_slice_no_panic heap_len d i n Hok Hr) | exact (bytes_conv_slice_no_panic heap_len d i n Hok Hr)].
+  - intros Hr. split; [exact (basic_end_list_slice_no_panic heap_len d i len Hok Hr)
+                      | intros Hn; exact (basic_assoc_slice_no_panic heap_len d i len n Hok Hr Hn)].
+Qed.
